@@ -21,10 +21,30 @@ type Client interface {
 type tcpServer struct {
 	nsqd  *NSQD
 	conns sync.Map
+
+	// handlers counts the running Handle calls: Close waits for them, so that at
+	// shutdown no connection (and no messagePump) is left once it returns
+	mtx      sync.Mutex
+	closing  bool
+	handlers sync.WaitGroup
 }
 
 func (p *tcpServer) Handle(conn net.Conn) {
+	p.mtx.Lock()
+	if p.closing {
+		p.mtx.Unlock()
+		conn.Close()
+		return
+	}
+	p.handlers.Add(1)
+	p.mtx.Unlock()
+	defer p.handlers.Done()
+
 	p.nsqd.logf(LOG_INFO, "TCP: new client(%s)", conn.RemoteAddr())
+
+	// until the client object exists Close closes the bare connection
+	p.conns.Store(conn.RemoteAddr(), conn)
+	defer p.conns.Delete(conn.RemoteAddr())
 
 	// The client should initialize itself by sending a 4 byte sequence indicating
 	// the version of the protocol that it intends to communicate, this will allow us
@@ -65,9 +85,16 @@ func (p *tcpServer) Handle(conn net.Conn) {
 	client.Close()
 }
 
+// Close closes every connection and waits until their handlers - IOLoop and the
+// messagePump it joins - have returned: a message that a pump has taken from a
+// channel queue is registered in flight by then, so a flush that follows sees it
 func (p *tcpServer) Close() {
+	p.mtx.Lock()
+	p.closing = true
+	p.mtx.Unlock()
 	p.conns.Range(func(k, v interface{}) bool {
 		v.(protocol.Client).Close()
 		return true
 	})
+	p.handlers.Wait()
 }
